@@ -59,6 +59,11 @@ CLAIMED = {
    note="1-3 atoms (4 thorough) of 1-2 element types, 1-3 radial shells per element with angular sizes 1/6/14 in every order, alignment 1/4 (1/2/4/8 thorough), permutations identity/reversal/seeded shuffles (not all), pruning symbolic on 2+1 points, lmax 1-2; all PySCF primitives are stubs listed in evidence.",
    technique="symbolic execution of the grid-construction and indexer code with contract stubs for PySCF primitives + z3 equality of symbolic coordinates/weights under the path condition; replay on the unmodified code",
    design="4/C19"),
+ "C18": dict(
+   text="Four layers. (1) CrossHair (z3 per path) over the real settings constructors with arguments decoded from small symbolic integers and floats: NLDFSettingsVI/VJ/VIJ/VK, SemilocalSettings, SADMSettings and FracLaplSettings raise iff an argument is illegal per the class documentation (unknown spec/mode/level/rho_mult/rho_damp, wrong parameter count incl. the se_erf_rinv extra parameter, a0 <= 0, negative multipliers, non-pair dots, indexes outside [-1, n)); accepted settings satisfy nfeat == len(get_feat_usps()) == len(ueg_vector()) == len(get_reasonable_normalizer()), and FeatureSettings over all 300 family combinations has get_feat_loc equal to the running sum. (2) Symbolic execution of NLDFAuxiliaryPlan.__init__ over the whole illegal region of alpha0, lambd, rhocut, expcut (plus enumerated illegal nalpha/nspin/strings/settings type) and of eval_feat_exp with symbolic densities: a call that returns never yields an exponent above max(alphas) at a point with rho > rhocut, and an out-of-range feature index raises. (3) The real ctypes wrappers reduce_angc_ylm_, RBFEvaluator family and FFTWrapper run clang's LLVM IR of the C in the bounds-checked interpreter with exactly sized buffers: accepted calls touch nothing outside their arrays (and nothing outside the column window), illegal layouts are refused. (4) Python shape guards of FeatNormalizerList, KernelEvaluator, ModelWithNormalizer, ConvolutionCollection(K) incl. default outputs.",
+   note="bounds in evidence (lists <= 2-3, floats in [-2,2], 1-2 grid points, nalpha <= 3/stride <= 4); NotImplementedError from ueg_vector/get_reasonable_normalizer counts as an explicit refusal; SDMX plan classes, PySCF-layer initialisers and convert_rad2orb_ through its wrapper are not covered; out-of-bounds counterexamples are confirmed with valgrind memcheck.",
+   technique="CrossHair symbolic execution (z3) of the real constructors + own symbolic execution of plans and of clang LLVM IR behind the real ctypes wrappers (bounds-checked memory) + z3; replay on the unmodified code (valgrind memcheck for out-of-bounds accesses)",
+   design="4/C18"),
  "C09": dict(
    text="Aliasing: every public pure-Python entry (exponents, s2/alpha routines, all map classes, normaliser list, semilocal plan, NLDF plan, eval_xc_cider) is called with caller-owned symbolic arrays and z3 decides on every feasible path that the arrays hold the same terms afterwards. Batching/blocking: the real nr_rks/nr_uks/nr_rks_nldf/nr_uks_nldf are executed symbolically (nao=2, 2 grid points, nset=2; one block of 2 vs two blocks of 1) and compared term-by-term with separate calls on fresh objects. History: interleaved/repeated calls on one plan object and a failed-then-successful call on one kernel object against fresh objects.",
    note="PySCF primitives replaced by numpy reference implementations; generator and eval_xc_cider by contract stubs that keep the per-spin cache statefulness; real max_memory->blksize arithmetic and SDMX buffers outside.",
